@@ -162,6 +162,9 @@ pub fn run(ctx: &Ctx) {
     ctx.set("evaluations", json!(total_evals));
     ctx.set("distinct_nontrivial", json!(all_distinct.len()));
     // (b) histories
+    // adversarial names before the (long) searches: a wall budget that runs out cuts the deepest level of a
+    // search, not this part
+    names_part(ctx);
     let searches: Vec<(usize, usize)> = ctx.tier.pick(vec![(2, 4), (3, 1)], vec![(2, 8), (3, 2)]);
     for (aw, depth) in searches {
         let alphabet = materialise(history_cfg(aw));
@@ -190,7 +193,6 @@ pub fn run(ctx: &Ctx) {
         let stats = search.run();
         record_bfs(ctx, &format!("extend over documents of weight <= {}", aw), &stats, events.len(), depth);
     }
-    names_part(ctx);
     ctx.set(
         "rule",
         json!("(c) small trees over 2-subsets of the adversarial name pool (prefixed names, attribute and child of the same name ...), as one document and split into two, judged like (a). (a) every document of the single-document space, each parsed, rendered under both presets and both sort options and compared for equality with the DOM-based reference schema; distinct_nontrivial = number of distinct reference schemas among them. (b) breadth-first search over extend_struct: states are real Element values deduplicated on the exact K_full key, every transition is the real extend_struct call and is compared with the reference schema of its whole history"),
